@@ -180,6 +180,8 @@ def gen_build(tape):
         m, lex, _ = G.generate(tape, profile, tag=_tag(k), max_decls=max_decls, ns_pool=ns_pool,
                                force_ns=force_ns)
         text = G.render(lex, tape)
+        if profile == "pybind":
+            text += _pair_template(tape, _tag(k))
         path = "%s/%s%s" % (src, stem, ext)
         if tape.bool(0.12, "input-is-a-symlink"):
             # the named input is a symbolic link to a file of another name elsewhere (a variant picked by a link,
@@ -364,6 +366,18 @@ def make_task_fn(spec):
                           use_boost_serialization="--use-boost-serialization" in argv)
         w.wrap(opt("--src").split(";"), path=opt("--out"))
     return fn
+
+
+def _pair_template(tape, tag):
+    """now and then a serializable class template with TWO parameters: its instantiations have a comma in their
+    C++ names (`Pair<int, double>`), which the Boost export macro cannot take, so pybind wrapping invents a
+    typedef name for each -- a name that must be the same in every process"""
+    if not tape.bool(0.3, "two-parameter-serializable-template"):
+        return ""
+    keys = tape.pick([["int", "string"], ["double"], ["size_t", "int", "bool"]], "pair-keys")
+    return ("\ntemplate<K = {%s}, V = {%s}>\nclass Pair%s {\n  Pair%s();\n  void %s() const;\n  K first(const V& v) const;\n};\n"
+            % (", ".join(keys), tape.pick(["double", "string"], "pair-value"), tag, tag,
+               tape.pick(["serialize", "serializable"], "pair-ser")))
 
 
 def _new_world(tape, sc, with_stale, fault_plan=None):
@@ -1035,7 +1049,7 @@ def run_config(tape, ctx):
         for d in (srcd, build, other):
             os.makedirs(d)
         m, lex, _ = G.generate(tape, "pybind", tag="QA", max_decls=5)
-        py_text = G.render(lex, tape)
+        py_text = G.render(lex, tape) + _pair_template(tape, "QA")
         m2, lex2, _ = G.generate(tape, "matlab", tag="QB", max_decls=4)
         ml_text = G.render(lex2, tape)
         py_src = os.path.join(srcd, "main.i")
